@@ -383,7 +383,14 @@ class Theory:
             if seq.rule in primitive_deriv:
                 # If the method is one of the primitive derivations, obtain and
                 # apply that primitive derivation.
-                rule_fun, _ = primitive_deriv[seq.rule]
+                rule_fun, sig = primitive_deriv[seq.rule]
+                # The argument must be what the rule takes: anything else (in
+                # particular a theorem object) would be passed on as a premise.
+                if sig is None:
+                    if seq.args is not None:
+                        raise CheckProofException("invalid input to derivation %s: takes no argument" % seq.rule)
+                elif not isinstance(seq.args, sig):
+                    raise CheckProofException("invalid input to derivation " + seq.rule)
                 try:
                     res_th = rule_fun(*prev_ths) if seq.args is None else rule_fun(seq.args, *prev_ths)
                     if rpt is not None:
